@@ -112,6 +112,9 @@ pub enum Op {
     /// several reports packed into one full account snapshot (engine layer); applied one by one
     /// at the bare `Orders` layer
     PackedSnapshot { reports: Vec<(u8, Rep)> },
+    /// several requests sent in one go (one strategy tick / one command): recorded through the
+    /// batch entry points at the engine layer, one by one at the bare `Orders` layer
+    BatchSent { cids: Vec<u8>, cancel: bool },
 }
 
 #[derive(Debug, Clone, Serialize, Deserialize)]
@@ -119,6 +122,10 @@ pub struct OrdersCase {
     pub consistent: bool,
     pub timelines: Vec<Timeline>,
     pub ops: Vec<Op>,
+    /// engine layer: two orders on different instruments carry the same client order id (ids are
+    /// unique per instrument only: every instrument keeps its own map)
+    #[serde(default)]
+    pub share_names: bool,
 }
 
 // -------------------------------------------------------------------------------------------
@@ -162,7 +169,8 @@ pub enum In {
     RepCancelInFlight(Option<O>),
     RepInactive(Inactive),
     CancelOk(i64),
-    CancelErr,
+    /// failed cancel; the selector picks the error the exchange / client reports
+    CancelErr(u8),
 }
 
 #[derive(Debug, Clone, Copy, PartialEq, Eq)]
@@ -227,7 +235,7 @@ pub fn model_step(m: &M, input: &In) -> Vec<M> {
         },
         In::RepInactive(_) => vec![M::Untracked],
         In::CancelOk(_) => vec![M::Untracked],
-        In::CancelErr => match m {
+        In::CancelErr(_) => match m {
             M::CancelInFlight(Some(o)) => vec![M::Open(o.clone())],
             M::CancelInFlight(None) => vec![M::Untracked],
             other => vec![other.clone()],
@@ -255,11 +263,18 @@ fn cid_name(cid: u8) -> ClientOrderId {
 struct Params {
     /// (exchange index, instrument index) per cid for the engine layer
     place: Vec<(ExchangeIndex, InstrumentIndex)>,
+    /// engine layer: orders 1 and 2 (placed on different instruments) share one client order id
+    share: bool,
+}
+
+/// client order id of an order at the engine layer
+fn ename(p: &Params, cid: u8) -> ClientOrderId {
+    if p.share && (cid == 1 || cid == 2) && p.place[1].1 != p.place[2].1 { ClientOrderId::new("cid-shared") } else { cid_name(cid) }
 }
 
 fn key(p: &Params, cid: u8, engine_layer: bool) -> OrderKey {
     let (e, i) = if engine_layer { p.place[cid as usize] } else { (ExchangeIndex(0), InstrumentIndex(0)) };
-    OrderKey { exchange: e, instrument: i, strategy: StrategyId::new("strat"), cid: cid_name(cid) }
+    OrderKey { exchange: e, instrument: i, strategy: StrategyId::new("strat"), cid: if engine_layer { ename(p, cid) } else { cid_name(cid) } }
 }
 
 fn side_of(cid: u8) -> Side {
@@ -304,7 +319,15 @@ fn cancel_response(p: &Params, cid: u8, engine_layer: bool, input: &In) -> Order
         key: key(p, cid, engine_layer),
         state: match input {
             In::CancelOk(t) => Ok(Cancelled { id: OrderId::new(format!("oid-{cid}")), time_exchange: ts(T0_MS + t * 1000) }),
-            _ => Err(OrderError::Connectivity(ConnectivityError::Timeout)),
+            In::CancelErr(kind) => Err(match kind % 6 {
+                0 => OrderError::Connectivity(ConnectivityError::Timeout),
+                1 => OrderError::Connectivity(ConnectivityError::Socket("closed".into())),
+                2 => OrderError::Rejected(ApiError::OrderAlreadyCancelled),
+                3 => OrderError::Rejected(ApiError::OrderAlreadyFullyFilled),
+                4 => OrderError::Rejected(ApiError::RateLimit),
+                _ => OrderError::Rejected(ApiError::OrderRejected("rejected".into())),
+            }),
+            _ => unreachable!("cancel response for a non-cancel input"),
         },
     }
 }
@@ -360,6 +383,12 @@ fn observe(p: &Params, cid: u8, engine_layer: bool, order: Option<&Order<Exchang
 trait Backend {
     fn apply(&mut self, p: &Params, cid: u8, input: &In);
     fn apply_packed(&mut self, p: &Params, items: &[(u8, In)]);
+    /// several OpenSent or several CancelSent inputs recorded in one go
+    fn apply_batch(&mut self, p: &Params, items: &[(u8, In)]) {
+        for (cid, input) in items {
+            self.apply(p, *cid, input);
+        }
+    }
     fn get(&self, p: &Params, cid: u8) -> Result<M, String>;
     fn all_cids_tracked(&self) -> usize;
 }
@@ -371,7 +400,7 @@ impl Backend for Bare {
         match input {
             In::OpenSent => self.0.record_in_flight_open(&open_request(p, cid, false)),
             In::CancelSent => self.0.record_in_flight_cancel(&cancel_request(p, cid, false)),
-            In::CancelOk(_) | In::CancelErr => self.0.update_from_cancel_response(&cancel_response(p, cid, false, input)),
+            In::CancelOk(_) | In::CancelErr(_) => self.0.update_from_cancel_response(&cancel_response(p, cid, false, input)),
             rep => {
                 let order = snapshot_order(p, cid, false, rep).expect("report");
                 self.0.update_from_order_snapshot(Snapshot(&order));
@@ -399,7 +428,7 @@ impl Backend for EngineLayer {
         match input {
             In::OpenSent => self.0.record_in_flight_open(&open_request(p, cid, true)),
             In::CancelSent => self.0.record_in_flight_cancel(&cancel_request(p, cid, true)),
-            In::CancelOk(_) | In::CancelErr => {
+            In::CancelOk(_) | In::CancelErr(_) => {
                 let ev = AccountEvent { exchange, kind: AccountEventKind::OrderCancelled(cancel_response(p, cid, true, input)) };
                 let _ = self.0.update_from_account(&ev);
             }
@@ -433,15 +462,27 @@ impl Backend for EngineLayer {
             let _ = self.0.update_from_account(&ev);
         }
     }
+    fn apply_batch(&mut self, p: &Params, items: &[(u8, In)]) {
+        if items.iter().all(|(_, i)| matches!(i, In::OpenSent)) {
+            let requests: Vec<_> = items.iter().map(|(c, _)| open_request(p, *c, true)).collect();
+            self.0.record_in_flight_opens(requests.iter());
+        } else {
+            let requests: Vec<_> = items.iter().map(|(c, _)| cancel_request(p, *c, true)).collect();
+            self.0.record_in_flight_cancels(requests.iter());
+        }
+    }
     fn get(&self, p: &Params, cid: u8) -> Result<M, String> {
         let inst = p.place[cid as usize].1;
-        // the cid must not be tracked under any other instrument
+        let name = ename(p, cid);
+        // the cid must not be tracked under any other instrument (unless another order placed there
+        // legitimately carries the same id)
         for (i, (_, st)) in self.0.instruments.0.iter().enumerate() {
-            if i != inst.index() && st.orders.0.contains_key(&cid_name(cid)) {
-                return Err(format!("{} is tracked under instrument {i}, but belongs to {}", cid_name(cid), inst));
+            let twin_there = (0..N_CIDS).any(|o| o != cid && ename(p, o) == name && p.place[o as usize].1.index() == i);
+            if i != inst.index() && !twin_there && st.orders.0.contains_key(&name) {
+                return Err(format!("{} is tracked under instrument {i}, but belongs to {}", name, inst));
             }
         }
-        observe(p, cid, true, self.0.instruments.instrument_index(&inst).orders.0.get(&cid_name(cid)))
+        observe(p, cid, true, self.0.instruments.instrument_index(&inst).orders.0.get(&name))
     }
     fn all_cids_tracked(&self) -> usize {
         self.0.instruments.0.values().map(|s| s.orders.0.len()).sum()
@@ -460,6 +501,7 @@ struct Shape {
     failed_cancel_restored: bool,
     resurrected_after_terminal: bool,
     packed: bool,
+    batched: bool,
     cids_touched: [bool; N_CIDS as usize],
 }
 
@@ -533,9 +575,31 @@ fn resolve(case: &OrdersCase) -> Vec<Vec<(u8, In)>> {
                 let input = if *ok && (!case.consistent || tl.terminal == Terminal::Cancelled) {
                     In::CancelOk(if case.consistent { tl.t_end() } else { *t as i64 })
                 } else {
-                    In::CancelErr
+                    In::CancelErr(*t)
                 };
                 steps.push(vec![(cid, input)]);
+            }
+            Op::BatchSent { cids, cancel } => {
+                let mut distinct: Vec<u8> = Vec::new();
+                for c in cids {
+                    let c = c % N_CIDS;
+                    if !distinct.contains(&c) {
+                        distinct.push(c);
+                    }
+                }
+                let mut group = Vec::new();
+                for cid in distinct {
+                    if *cancel {
+                        ensure_sent(cid, &mut steps, &mut sent);
+                        group.push((cid, In::CancelSent));
+                    } else if case.timelines[cid as usize].sent_by_engine && !sent[cid as usize] {
+                        sent[cid as usize] = true;
+                        group.push((cid, In::OpenSent));
+                    }
+                }
+                if !group.is_empty() {
+                    steps.push(group);
+                }
             }
             Op::PackedSnapshot { reports } => {
                 let mut group = Vec::new();
@@ -563,6 +627,9 @@ fn drive<B: Backend>(name: &str, backend: &mut B, p: &Params, steps: &[Vec<(u8, 
         let before: Vec<Result<M, String>> = (0..N_CIDS).map(|c| backend.get(p, c)).collect();
         if group.len() == 1 {
             backend.apply(p, group[0].0, &group[0].1);
+        } else if group.iter().all(|(_, i)| matches!(i, In::OpenSent)) || group.iter().all(|(_, i)| matches!(i, In::CancelSent)) {
+            shape.batched = true;
+            backend.apply_batch(p, group);
         } else {
             shape.packed = true;
             backend.apply_packed(p, group);
@@ -591,7 +658,7 @@ fn drive<B: Backend>(name: &str, backend: &mut B, p: &Params, steps: &[Vec<(u8, 
                             shape.resurrected_after_terminal = true;
                         }
                     }
-                    In::CancelErr => {
+                    In::CancelErr(_) => {
                         if matches!(m, M::CancelInFlight(Some(_))) {
                             shape.failed_cancel_restored = true;
                         }
@@ -732,6 +799,7 @@ fn op(consistent: bool) -> BoxedStrategy<Op> {
         10 => (0u8..N_CIDS, rep.clone()).prop_map(|(cid, rep)| Op::Report { cid, rep }),
         3 => (0u8..N_CIDS, any::<bool>(), 0u8..12).prop_map(|(cid, ok, t)| Op::CancelResp { cid, ok, t }),
         1 => prop::collection::vec((0u8..N_CIDS, rep), 1..4).prop_map(|reports| Op::PackedSnapshot { reports }),
+        2 => (prop::collection::vec(0u8..N_CIDS, 2..4), any::<bool>()).prop_map(|(cids, cancel)| Op::BatchSent { cids, cancel }),
     ]
     .boxed()
 }
@@ -769,9 +837,10 @@ impl Check for OrdersLifecycle {
                     Just(consistent),
                     prop::collection::vec(timeline(), N_CIDS as usize),
                     prop::collection::vec(op(consistent), 0..max),
+                    prop::bool::weighted(0.3),
                 )
             })
-            .prop_map(|(consistent, timelines, ops)| OrdersCase { consistent, timelines, ops })
+            .prop_map(|(consistent, timelines, ops, share_names)| OrdersCase { consistent, timelines, ops, share_names })
             .boxed()
     }
 
@@ -787,7 +856,7 @@ impl Check for OrdersLifecycle {
                 (e, i)
             })
             .collect();
-        let p = Params { place };
+        let p = Params { place, share: case.share_names };
         let steps = resolve(case);
         let mut shape = Shape::default();
 
@@ -817,6 +886,8 @@ impl Check for OrdersLifecycle {
         rep.class_if(shape.failed_cancel_restored, "failed_cancel_restores_open");
         rep.class_if(shape.resurrected_after_terminal, "open_report_after_terminal");
         rep.class_if(shape.packed, "packed_account_snapshot");
+        rep.class_if(shape.batched, "requests_recorded_as_a_batch");
+        rep.class_if(case.share_names, "client_order_id_shared_by_two_instruments");
         rep.class_if(multi, "several_cids_interleaved");
         rep.nontrivial = steps.len() >= 3
             && (shape.open_after_cancel_request
@@ -873,13 +944,13 @@ fn enumerate(cids: u8, max_len: usize, first_sent: bool) -> impl Iterator<Item =
                 ops.push(alpha[idx % n].clone());
                 idx /= n;
             }
-            OrdersCase { consistent: false, timelines: timelines.clone(), ops }
+            OrdersCase { consistent: false, timelines: timelines.clone(), ops, share_names: false }
         })
     })
 }
 
 pub fn run(ctx: &mut Ctx) {
-    ctx.rule = "orders_lifecycle: 4 client order ids over 3 instruments / 2 exchanges; history vec(op,0..40|70) of {OpenSent, CancelSent, Report(order snapshot), CancelResp ok/err, PackedSnapshot}; 80% consistent mode (each order has a hidden exchange timeline — strictly increasing timestamps, non-decreasing partial fills, optional terminal state — and reports are samples of it delivered in any order with duplicates), 20% wild mode (arbitrary timestamps/fills). Each history is applied to a bare Orders map and to EngineState::update_from_account/record_in_flight_*. non-trivial = >=3 resolved steps AND >=2 cids touched AND at least one of {open report after a cancel request, report older than held data, zero-remaining open report for a tracked order, failed cancel restoring an open order}; distinct by hash of the case. Exhaustive: all sequences over the 14-letter (1 cid, quick) alphabet up to length 3 and, thorough, the 28-letter (2 cids) alphabet up to length 3 plus 1 cid up to length 5.".into();
+    ctx.rule = "orders_lifecycle: 4 client order ids over 3 instruments / 2 exchanges; history vec(op,0..40|70) of {OpenSent, CancelSent, Report(order snapshot), CancelResp ok / err (6 error kinds incl. 'already cancelled' / 'already filled' rejections), PackedSnapshot, BatchSent (2..3 requests recorded through the batch entry points)}; in 30% of the cases two orders on different instruments carry the same client order id at the engine layer; 80% consistent mode (each order has a hidden exchange timeline — strictly increasing timestamps, non-decreasing partial fills, optional terminal state — and reports are samples of it delivered in any order with duplicates), 20% wild mode (arbitrary timestamps/fills). Each history is applied to a bare Orders map and to EngineState::update_from_account/record_in_flight_*. non-trivial = >=3 resolved steps AND >=2 cids touched AND at least one of {open report after a cancel request, report older than held data, zero-remaining open report for a tracked order, failed cancel restoring an open order}; distinct by hash of the case. Exhaustive: all sequences over the 14-letter (1 cid, quick) alphabet up to length 3 and, thorough, the 28-letter (2 cids) alphabet up to length 3 plus 1 cid up to length 5.".into();
     ctx.assumptions = vec![
         "client order ids are unique per open request: a second OpenSent for the same cid is not generated; an engine-originated order's first event is its OpenSent".into(),
         "reports about one order agree on its static data (side, price, quantity, exchange order id)".into(),
